@@ -58,6 +58,12 @@ def run(ctx, replay):
     if trw is None:
         return
 
+    # key ranges: the output of a compaction, one level up, spans an untouched file of that level (inputs entirely below
+    # and entirely above it): every metric of the untouched file still reads the same
+    trg = run_mdata(ctx, ["--compact", 0, "--gap", 60 if thorough else 8, "--rollup", 0], "gap")
+    if trg is None:
+        return
+
     def lose_cell(lines):
         for i, ln in enumerate(lines):
             if '"ev":"After"' in ln:
